@@ -120,7 +120,16 @@ func (e *exporter) ExportSpans(ctx context.Context, ss []sdktrace.ReadOnlySpan) 
 		time.Sleep(e.sleep)
 	case 2:
 		if n%e.k == 0 {
-			err = errors.New("scripted export failure")
+			// a failed export is a failed export whatever the error wraps: a collector's own cancelled
+			// connection context must not look like this processor going away
+			switch (n / e.k) % 3 {
+			case 0:
+				err = errors.New("scripted export failure")
+			case 1:
+				err = fmt.Errorf("scripted export failure: upstream connection: %w", context.Canceled)
+			default:
+				err = fmt.Errorf("scripted export failure: upstream call: %w", context.DeadlineExceeded)
+			}
 		}
 	case 3:
 		if n%e.k == 0 {
